@@ -54,6 +54,8 @@ class BaseInterval(ABC):
             The transformed values.
         """
         vmin, vmax = self.get_limits(values)
+        # data-derived limits are NumPy scalars of the data's dtype: vmax - vmin would wrap for narrow integers
+        vmin, vmax = float(vmin), float(vmax)
 
         # integer data is converted first: unsigned subtraction would wrap around below vmin
         values = np.asarray(values)
@@ -85,6 +87,7 @@ class BaseInterval(ABC):
             The transformed values.
         """
         vmin, vmax = self.get_limits(values)
+        vmin, vmax = float(vmin), float(vmax)
 
         values = np.multiply(values, vmax - vmin)
         np.add(values, vmin, out=values)
